@@ -882,6 +882,10 @@ def t_pcf(name):
         ]
     else:
         regs += [RG('large-order/real', A(one_of(uniform_bits(5.0, 30.0), uniform_bits(-30.0, -5.0)), uniform_bits(-10.0, 10.0)), **HV)]
+        # release 1.3.0 forms k = sqrt(1+e^(2 pi a)) - e^(pi a) with cancellation (9.1*a bits for a > 0): give the reference
+        # sources that many extra bits so that they stay self-consistent
+        for rg in regs:
+            rg.ref_extra = lambda specs: 60 + int(10 * abs(float(K.spec_fraction(specs[0]))))
     return regs
 
 
